@@ -11,9 +11,17 @@ for c in m["checks"]:
         e = json.load(open(p))
         jsonschema.validate(e, es)
         assert e["level"] == c["level_claimed"]["category"], "level mismatch"
+        assert e.get("violations", 0) == 0, "evidence records violations (written by a run against a mutant or a failing tree?)"
+        assert e["tier"] == "quick" and e["seed"] == 1, "evidence to commit comes from the quick tier at VERIF_SEED=1"
     except Exception as ex:
         bad += 1
         print("BAD", p, str(ex)[:200])
+stray = glob.glob(R + "/replays/*/found-*")
+if stray:
+    # untriaged saved failures are replayed first by every run: triage them (fix / known finding / false alarm), then delete
+    bad += len(stray)
+    for f in stray:
+        print("STRAY", f)
 ids = {json.loads(l)["id"] for l in open(R + "/properties.jsonl") if l.strip()}
 cl = {c["property_id"] for c in m["checks"]} | {n["property_id"] for n in m.get("not_applicable", [])}
 assert ids == cl, ids ^ cl
